@@ -4,6 +4,14 @@
 // @h c17_has_impl_containers tier=both
 // @h c17_has_impl_native tier=both
 // @h c17_has_impl_struct_default tier=both
+// @h c17_has_impl_enum_000 tier=both
+// @h c17_has_impl_enum_001 tier=both
+// @h c17_has_impl_enum_010 tier=both
+// @h c17_has_impl_enum_011 tier=both
+// @h c17_has_impl_enum_100 tier=both
+// @h c17_has_impl_enum_101 tier=both
+// @h c17_has_impl_enum_110 tier=both
+// @h c17_has_impl_enum_111 tier=both
 // @canary canary_c17_has_impl
 //
 // C17 -- "has_impl(X) being true implies the type implements X", for the built-in kinds
@@ -19,6 +27,10 @@
 //         serde_json::Value            : FromStr, Display, Default
 //   P2  a native type claims exactly the impls it was registered with
 //   P3  a struct / enum / newtype claims Default iff it carries a default value
+//   P4  an enum claims FromStr only if its bespoke impl markers make output_enum emit one
+//       (AllSimpleVariants or UntaggedFromStr), Display only if AllSimpleVariants or
+//       UntaggedDisplay -- the markers are the other of the two cooperating sites (emission in
+//       output_enum keys on exactly these); every subset of the three markers, one harness each
 //
 // The kind is concrete per harness (a symbolic selector chooses between constructor
 // calls), the trait is symbolic.
@@ -185,6 +197,99 @@ stubs! {
         kani::cover!(has, "[must] Default is claimed");
         core::mem::forget(entry);
         core::mem::forget(ts);
+    }
+}
+
+fn check_enum(all_simple: bool, untagged_from_str: bool, untagged_display: bool) {
+    let ts = empty_type_space();
+    let mut bespoke = BTreeSet::new();
+    if all_simple {
+        bespoke.insert(TypeEntryEnumImpl::AllSimpleVariants);
+    }
+    if untagged_from_str {
+        bespoke.insert(TypeEntryEnumImpl::UntaggedFromStr);
+    }
+    if untagged_display {
+        bespoke.insert(TypeEntryEnumImpl::UntaggedDisplay);
+    }
+    let entry: TypeEntry = TypeEntryDetails::Enum(TypeEntryEnum {
+        name: "E".to_string(),
+        rename: None,
+        description: None,
+        default: None,
+        tag_type: EnumTagType::Untagged,
+        variants: Vec::new(),
+        deny_unknown_fields: false,
+        bespoke_impls: bespoke,
+        schema: SchemaWrapper(Schema::Bool(true)),
+    })
+    .into();
+    let x = any_impl();
+    let has = entry.has_impl(&ts, x.clone());
+    match x {
+        TypeSpaceImpl::FromStr => kani::assert(
+            !has || all_simple || untagged_from_str,
+            "[C17/P4] an enum claims FromStr although no FromStr impl is emitted for it",
+        ),
+        TypeSpaceImpl::Display => kani::assert(
+            !has || all_simple || untagged_display,
+            "[C17/P4] an enum claims Display although no Display impl is emitted for it",
+        ),
+        TypeSpaceImpl::Default => kani::assert(
+            !has,
+            "[C17/P3] an enum without a default value claims Default",
+        ),
+    }
+    kani::cover!(has || !(all_simple || untagged_from_str || untagged_display), "[must] a claim is reachable");
+    core::mem::forget(entry);
+    core::mem::forget(ts);
+}
+
+stubs! {
+    fn c17_has_impl_enum_000() {
+        check_enum(false, false, false)
+    }
+}
+
+stubs! {
+    fn c17_has_impl_enum_001() {
+        check_enum(false, false, true)
+    }
+}
+
+stubs! {
+    fn c17_has_impl_enum_010() {
+        check_enum(false, true, false)
+    }
+}
+
+stubs! {
+    fn c17_has_impl_enum_011() {
+        check_enum(false, true, true)
+    }
+}
+
+stubs! {
+    fn c17_has_impl_enum_100() {
+        check_enum(true, false, false)
+    }
+}
+
+stubs! {
+    fn c17_has_impl_enum_101() {
+        check_enum(true, false, true)
+    }
+}
+
+stubs! {
+    fn c17_has_impl_enum_110() {
+        check_enum(true, true, false)
+    }
+}
+
+stubs! {
+    fn c17_has_impl_enum_111() {
+        check_enum(true, true, true)
     }
 }
 
